@@ -33,8 +33,7 @@ type c17Case struct {
 	Max    F64   `json:"max,omitempty"`
 	Levels []int `json:"levels,omitempty"`
 	Hist   int   `json:"hist,omitempty"` // history on the scale object before the observed calls
-	// options for Nice and for the calls after it; nil = the same as O.  (Cases whose O reaches
-	// levels with an overflowing spacing use level-free options here.)
+	// options for Nice and for the calls after it; nil = the same as O
 	NO *c17Opts `json:"no,omitempty"`
 }
 
@@ -389,11 +388,16 @@ func c17LinearCase(rng *rand.Rand) c17Case {
 	}
 	if rng.Intn(25) == 0 && c.Base != 1 && c.Base >= 0 {
 		// level limits (and per-level observations) around the level where the spacing eb^(l/2)
-		// (x5) overflows float64; Nice keeps level-free options (finding hI-c17-2)
+		// (x5) overflows float64 (findings hI-c17-1, hI-c17-2)
 		ov := 2 * int(math.Ceil(1024*math.Ln2/math.Log(float64(eb))))
 		c.O.MinLevel = ov - 5 + rng.Intn(9)
 		c.O.MaxLevel = c.O.MinLevel + rng.Intn(4)
-		c.NO = &c17Opts{Max: c.O.Max}
+		// Nice: only levels whose spacing has overflowed.  (At the last levels BEFORE that the
+		// spacing is finite but the niced domain [-spacing, spacing] has an infinite width:
+		// finding hI-c17-4, outside the property's domains.)
+		if c.O.MinLevel < ov {
+			c.NO = &c17Opts{Max: c.O.Max, MinLevel: ov, MaxLevel: ov + rng.Intn(3)}
+		}
 		if c.Levels != nil {
 			c.Levels = []int{ov - 3, ov - 2, ov - 1, ov, ov + 1, ov + 4}
 		}
@@ -484,11 +488,10 @@ func c17LogCase(rng *rand.Rand) c17Case {
 	}
 	if rng.Intn(20) == 0 {
 		// level limits (and per-level observations) around the level where the effective base
-		// overflows float64; Nice keeps level-free options (finding hI-c17-2)
+		// overflows float64 (findings hI-c17-1, hI-c17-2)
 		ov := int(math.Ceil(math.Log2(1024 * math.Ln2 / math.Log(float64(b)))))
 		c.O.MinLevel = ov - 2 + rng.Intn(4)
 		c.O.MaxLevel = c.O.MinLevel + rng.Intn(3)
-		c.NO = &c17Opts{Max: c.O.Max}
 		if c.Levels != nil {
 			c.Levels = []int{ov - 2, ov - 1, ov, ov + 1, ov + 3}
 		}
